@@ -158,7 +158,7 @@ class C20(Prop):
     pid = "C20"
     prop_file = "Props/C20.v"
     module = "Props.C20"
-    gen_deps = ["Table", "ParseCfg"]
+    gen_deps = ["Table", "ParseCfg", "ParserFn"]
     harness = ("h-parsecfg", "hparsecfg")
     shard_min = 48    # a 1100-byte OSC payload costs the list-based model / spec tens of milliseconds
     nontrivial_rule = ("cases `pc <label> <hex>`, each run through the FOUR builds of anstyle-parse {default, core, core+utf8, no default features} "
